@@ -352,12 +352,16 @@ def gen_request(r, defect=None):
     # two target files whose module names coincide are only generated for the pairs whose PATHS collide after sanitising
     # (k8s_min / k8s.min, my_types / my-types: the second gets a trailing underscore); files differing only by letter case
     # (class.proto / Class.proto) silently share one module: reported as a finding, not generated
+    if defect == "casepair":
+        pair = r.choice([[("class", "class_"), ("Class", "class_")], [("library", "library"), ("Library", "library")],
+                         [("Import", "import_"), ("import_", "import_")]])
+        stems = pair + [x for x in stems if x[1] not in (pair[0][1],)][:1]
     kept = []
-    for x in stems:
+    for x in stems if defect != "casepair" else []:
         clash = [y for y in kept if y[1] == x[1]]
         if not clash or all({x[0], y[0]} in ({"k8s_min", "k8s.min"}, {"my-types", "my_types"}) for y in clash):
             kept.append(x)
-    stems = kept
+    stems = kept if defect != "casepair" else stems
     if defect is None and r.random() < 0.08:
         defect = r.choice(["nested", "prefixdep"])
     svcs = r.sample(SVC_POOL, r.randint(0, 3))
@@ -366,6 +370,8 @@ def gen_request(r, defect=None):
     files, mi, bare = [], 0, set()
     sub = r.choice(["sub", "types_ext", "admin"]) if (ver and r.random() < 0.3) or defect in ("nested", "subsvc") else None
     if stems[:2] in ([FILE_POOL[0], FILE_POOL[1]], [FILE_POOL[1], FILE_POOL[0]]) and len(stems) < 3 and defect not in ("nested", "subsvc"):
+        sub = None
+    if defect == "casepair" and len(stems) < 3:
         sub = None
     if defect == "nomsg" and len(svcs) < 2:
         svcs = r.sample(SVC_POOL, 2)
@@ -479,7 +485,7 @@ def reference(case):
     nmov = [val for p in case["params"] for text, kind, val in E2E_OVERRIDES if p.strip() == text and kind == "name"]
     if nmov:
         name = nmov[-1]
-    stem2mod, svc2mod = dict(FILE_POOL + [("top", "top")]), dict(SVC_POOL)
+    stem2mod, svc2mod = dict(FILE_POOL + [("top", "top"), ("Library", "library"), ("import_", "import_")]), dict(SVC_POOL)
     types, services, service_modules = set(), set(), set()
     ads = any(p.strip() == "python-gapic-templates=ads-templates" for p in case["params"])
     if ads:
@@ -515,7 +521,7 @@ def reference(case):
             transports = p.strip().split("=", 1)[1]
             break
     unv_disabled = bool(case.get("yaml"))
-    return {"ads": ads, "service_modules": service_modules, "package": package, "root": root, "alias": "/".join(ns + [name]), "types": types, "services": services,
+    return {"ads": ads, "service_modules": service_modules, "n_targets": len(tg), "package": package, "root": root, "alias": "/".join(ns + [name]), "types": types, "services": services,
             "versioned": bool(version), "multi_package": len(pkgs) > 1, "metadata": any(opt_key(p) == "metadata" for p in case["params"]),
             "transports": transports.split("+"), "unversioned_disabled": unv_disabled,
             "dep_only": [fp.name for fp in req.proto_file if fp.name not in req.file_to_generate]}
@@ -581,6 +587,10 @@ def oracle(ctx, case, res, ref):
         if missing and not extra and all(m.count("/") > root.count("/") + 3 for m in missing):
             sig = "files.nested_subpackage"
         viol(f"types modules: unexpected {extra}, missing {missing} (one per target proto, none for dependency-only files {ref['dep_only'][-2:]})", sig)
+    if got_types == ref["types"] and len(got_types) != ref["n_targets"]:
+        # the expected module paths of two target files coincide: files of one directory whose names agree in snake case
+        viol(f"{ref['n_targets']} target proto files but {len(got_types)} types modules {sorted(t.split('/')[-1] for t in got_types)}: "
+             "two files whose names agree in snake case share one module", "files.module_name_case_collision")
     got_svcs = {m.group(1) for n in names for m in [re.match("(" + re.escape(root) + r"/(?:[^/]+/)*services/[^/]+)/", n)] if m}
     if got_svcs != ref["services"]:
         viol(f"service packages: unexpected {sorted(got_svcs - ref['services'])}, missing {sorted(ref['services'] - got_svcs)}")
@@ -734,6 +744,7 @@ def run(ctx):
     cases += [c for c in (make_case("C11-e2e-underscore", i, "underscore") for i in range(ctx.n(3, 30))) if c]
     cases += [c for c in (make_case("C11-e2e-nomsg", i, "nomsg") for i in range(ctx.n(3, 30))) if c]
     cases += [c for c in (make_case("C11-e2e-reserved", i, "reserved") for i in range(ctx.n(3, 30))) if c]
+    cases += [c for c in (make_case("C11-e2e-casepair", i, "casepair") for i in range(ctx.n(1, 6))) if c]
     checks = run_e2e(ctx, cases)
     eval_e2e(ctx, checks, "c11e2e", len(cases))
 
